@@ -65,11 +65,23 @@ class Stats:
             setattr(self, k, getattr(self, k, 0) + v)
 
 
+def _env_opts():
+    out = {}
+    for kv in filter(None, os.environ.get("SYMX_FEAS_OPTS", "").split(",")):      # development knob
+        k, v = kv.split("=")
+        out[k] = {"true": True, "false": False}.get(v, int(v) if v.isdigit() else v)
+    return out
+
+
+DEFAULT_FEAS_OPTS = _env_opts()
+
+
 class Engine:
     """One engine per scenario. Symbolic inputs persist across the re-executed paths."""
 
     FEAS_TIMEOUT_MS = 3000
-    feas_opts = {}          # per-scenario z3 options of the path-feasibility solver (spec["feas_opts"])
+    # z3 options of the path-feasibility and witness solvers; a scenario's spec["feas_opts"] is merged over the default
+    feas_opts = dict(DEFAULT_FEAS_OPTS)
     STATIC_TIMEOUT_MS = 500
 
     def __init__(self, name="scenario"):
@@ -224,11 +236,7 @@ class Engine:
         if self._solver is None:
             s = z3.Solver()
             s.set("timeout", self.FEAS_TIMEOUT_MS)
-            opts = dict(self.feas_opts)
-            for kv in filter(None, os.environ.get("SYMX_FEAS_OPTS", "").split(",")):      # development knob
-                k, v = kv.split("=")
-                opts[k] = {"true": True, "false": False}.get(v, int(v) if v.isdigit() else v)
-            for k, v in opts.items():
+            for k, v in self.feas_opts.items():
                 s.set(k, v)
             for a in self.assumptions:
                 s.add(a)
